@@ -31,7 +31,6 @@ import (
 	"fmt"
 	"io"
 	"net"
-	"os"
 	"runtime"
 	"strconv"
 	"strings"
@@ -267,12 +266,12 @@ func h1iEff(L int) int {
 	return L
 }
 
-func h1iRef(side string, data []byte, L, B int) []string {
+func h1iRef(side string, data []byte, L, B int) string {
 	src := &h1iSrc{data: data}
 	br := bufio.NewReaderSize(src, h1iEff(L))
-	var script []string
-	for calls := 0; calls <= len(data)+1; calls++ {
-		src.hit = false
+	var pre, post []string
+	ended := false // the reader has answered io.EOF: the real call blocks there; what follows is what the peer's close makes of it
+	for calls := 0; calls <= len(data)+2; calls++ {
 		start := src.pos - br.Buffered()
 		var err error
 		cont, cl := false, false
@@ -295,30 +294,50 @@ func h1iRef(side string, data []byte, L, B int) []string {
 		if cont {
 			x = "x"
 		}
+		if src.hit && !ended {
+			ended = true
+			pre = append(pre, "n"+x)
+			x = ""
+		}
+		tok, stop := "", true
 		switch {
 		case panicked:
-			return append(script, "p"+x)
+			tok = "p" + x
 		case err == nil:
-			n := src.pos - br.Buffered() - start
-			t := fmt.Sprintf("m%d%s", n, x)
+			tok = fmt.Sprintf("m%d%s", src.pos-br.Buffered()-start, x)
 			if cl {
-				t += "c"
+				tok += "c"
 			}
-			script = append(script, t)
-			if side == "cli" { // one request in flight: only the first answer is read
-				return script
+			stop = side == "cli" || (cl && !ended)
+			if cl && !ended && side == "srv" {
+				tok += fmt.Sprintf(",rest%d", len(data)-(src.pos-br.Buffered()))
 			}
-		case src.hit:
+		case ended:
 			_, nothing := err.(fasthttp.ErrNothingRead)
 			if err == io.EOF || nothing {
-				return append(script, "n"+x+":q")
+				tok = "q"
+			} else {
+				tok = "l"
 			}
-			return append(script, "n"+x+":l")
 		default:
-			return append(script, "e"+x)
+			tok = "e" + x
+		}
+		if ended {
+			post = append(post, tok)
+		} else {
+			pre = append(pre, tok)
+		}
+		if stop {
+			break
 		}
 	}
-	return append(script, "unbounded")
+	j := func(l []string) string {
+		if len(l) == 0 {
+			return "-"
+		}
+		return strings.Join(l, ",")
+	}
+	return j(pre) + "|" + j(post)
 }
 
 // --- one case
@@ -386,6 +405,10 @@ func h1iOnce(side string, L, B int, segs [][]byte) h1iOut {
 	}
 	if setup != "ok" {
 		return h1iOut{impl: setup + " - - l0 -", bad: true}
+	}
+	// the serve goroutine was started with `go`: wait until it runs (it is identified by its frames)
+	for i := 0; i < 2000 && h1iState(marker, before) == "gone"; i++ {
+		time.Sleep(50 * time.Microsecond)
 	}
 	disp := "dret"
 	var blocked chan bool
@@ -593,6 +616,9 @@ func h1dispCases(c *hx.Ctx) {
 	var jobs []h1iJob
 	seen := map[string]bool{}
 	add := func(side string, L, B int, head string, how string, segs ...[]byte) {
+		if side == "srv" && B != 0 && L == 0 {
+			L = h1iDefaultHead // a StreamConfig replaces the default as a whole: MaxHeaderSize 0 would mean a 16-byte reader
+		}
 		k := fmt.Sprintf("%s %d %d %s", side, L, B, h1iTok(segs))
 		if seen[k] {
 			return
@@ -679,16 +705,36 @@ func h1dispCases(c *hx.Ctx) {
 			around("leading-crlf", 0, 0, cat([]byte("\r\n\r\n"), m))
 		}
 		// Content-Length
+		// NOTE: with no body limit (server default, client always) fasthttp allocates for the announced length: 2 GiB and a
+		// panic for anything above 2^31 — ONE such case per side (the recover handler of serve), the others under a limit
+		huge := func(v string, base int) bool {
+			n, err := strconv.ParseUint(strings.TrimSpace(v), base, 64)
+			return err == nil && n >= 1<<26
+		}
 		for _, v := range h1iBadCL {
-			around("bad-content-length", 0, 0, h1iMsg(first, []string{"Host: c08.test", "Content-Length: " + v}, "hello"))
-			around("bad-content-length", 0, 16, h1iMsg(first, []string{"Host: c08.test", "Content-Length: " + v}, "hello"))
+			m := h1iMsg(first, []string{"Host: c08.test", "Content-Length: " + v}, "hello")
+			if !huge(v, 10) {
+				around("bad-content-length", 0, 0, m)
+			} else if v == "9223372036854775807" {
+				add(side, 0, 0, "-", "huge-content-length-no-limit", m)
+			}
+			if side == "srv" {
+				around("bad-content-length", 0, 16, m)
+			}
 		}
 		around("two-content-lengths", 0, 0, h1iMsg(first, []string{"Content-Length: 5", "Content-Length: 6"}, "hello!"))
 		around("cl+chunked", 0, 0, h1iMsg(first, []string{"Content-Length: 5", "Transfer-Encoding: chunked"}, "2\r\nab\r\n0\r\n\r\n"))
 		// chunk sizes
 		for _, ch := range h1iBadChunk {
-			around("bad-chunk", 0, 0, h1iMsg(first, []string{"Host: c08.test", "Transfer-Encoding: chunked"}, ch))
-			around("bad-chunk", 0, 16, h1iMsg(first, []string{"Host: c08.test", "Transfer-Encoding: chunked"}, ch))
+			m := h1iMsg(first, []string{"Host: c08.test", "Transfer-Encoding: chunked"}, ch)
+			if !huge(ch[:strings.IndexAny(ch+"\r", "\r\n;")], 16) {
+				around("bad-chunk", 0, 0, m)
+			} else if side == "srv" && strings.HasPrefix(ch, "80000001") {
+				add(side, 0, 0, "-", "huge-chunk-no-limit", m)
+			}
+			if side == "srv" {
+				around("bad-chunk", 0, 16, m)
+			}
 		}
 		// heads at the limit
 		for _, L := range []int{64, 256, 0, 1000} {
@@ -760,13 +806,8 @@ func h1dispCases(c *hx.Ctx) {
 		for _, s := range j.segs {
 			all = append(all, s...)
 		}
-		t0 := time.Now()
-		script := strings.Join(h1iRef(j.side, all, j.L, j.B), ",")
-		t1 := time.Now()
+		script := h1iRef(j.side, all, j.L, j.B)
 		o := h1iOnce(j.side, j.L, j.B, j.segs)
-		if d := time.Since(t0); d > 30*time.Millisecond && os.Getenv("H1I_DEBUG") != "" {
-			fmt.Fprintf(os.Stderr, "SLOW %v ref=%v %s %s %s\n", d, t1.Sub(t0), j.side, j.how, o.impl)
-		}
 		if o.bad {
 			stop++
 		}
@@ -774,11 +815,11 @@ func h1dispCases(c *hx.Ctx) {
 		c.Count("h1disp." + j.side + "." + j.how)
 		c.Count("h1disp.state1." + o.state1)
 		c.Count("h1disp.disp." + o.disp)
-		last := script
-		if i := strings.LastIndex(script, ","); i >= 0 {
-			last = script[i+1:]
+		last := script[:strings.Index(script, "|")]
+		if i := strings.LastIndex(last, ","); i >= 0 {
+			last = last[i+1:]
 		}
-		c.Count("h1disp." + j.side + ".last=" + strings.TrimRight(last[:1], "0123456789"))
+		c.Count("h1disp." + j.side + ".ends=" + last[:1])
 		if strings.Contains(o.ev1, "b") {
 			c.Count("h1disp.replied-400")
 		}
